@@ -96,6 +96,7 @@ type interpreter struct {
 	varsMemo  map[int]map[int]struct{}
 	axiomSeen map[string]bool
 	axioms    []*sym.Term
+	initPC    []*sym.Term // path-condition conjuncts produced by package initialisers
 	lnArgs    []*sym.Term
 	expArgs   []*sym.Term
 
